@@ -811,6 +811,15 @@ func RunE2EOn(env Env, p E2E, start func(cfg rig.Config, seed int64) (*rig.Rig, 
 		}
 		out.stat("hung_ops", int64(hungOps))
 		out.stat("hung_streams", int64(hungStreams))
+		// the calls that did complete are still judged for C01: a hung call
+		// and a wrong reply are often two faces of one mix-up
+		for _, o := range all {
+			if o.isDone() && o.Kind == KCall && o.Rec != nil && o.Rec.Err == nil && o.Rec.Reply != nil {
+				if d := rig.CheckReply(o.Rec); d != "" {
+					out.add("C01", "C01/e2e/wrong-reply", fmt.Sprintf("%s id %s (%s): %s (in a scenario where another call never completed)", o.Form, o.Spec.ID(), p.Cfg, d), nil)
+				}
+			}
+		}
 	}
 	// residue check before closing (C06)
 	if finished {
